@@ -167,7 +167,7 @@ def run(cmd, cwd, env, timeout):
         return 'timeout', ''
 
 
-def judge(module, idx, tier, checks_override=None):
+def judge(module, idx, tier, checks_override=None, skip_tests=False):
     src = open(os.path.join(REPO, 'pytenet', module + '.py')).read()
     msrc, applied = mutate(src, idx)
     res = {'module': module, 'site': idx, 'line': applied[0], 'mutation': applied[1]}
@@ -182,11 +182,11 @@ def judge(module, idx, tier, checks_override=None):
         if checks_override:
             checks = checks_override
         py = '/venv/bin/python'
-        rc, out = run([py, '-m', 'pytest', '-q', '-x', '-p', 'no:cacheprovider', '--timeout=300', 'test/' + tfile], d, env, 900)
+        rc, out = (0, '') if skip_tests else run([py, '-m', 'pytest', '-q', '-x', '-p', 'no:cacheprovider', '--timeout=300', 'test/' + tfile], d, env, 900)
         if rc != 0:
             res['verdict'] = 'tests'; res['by'] = tfile + (' (timeout)' if rc == 'timeout' else '')
             return res
-        rc, out = run([py, '-m', 'pytest', '-q', '-p', 'no:cacheprovider', '--timeout=300'], d, env, 1800)
+        rc, out = (0, '') if skip_tests else run([py, '-m', 'pytest', '-q', '-p', 'no:cacheprovider', '--timeout=300'], d, env, 1800)
         if rc != 0:
             failed = [l for l in out.splitlines() if l.startswith('FAILED')]
             if rc != 'timeout' and len(failed) == 1 and 'test_eigh_krylov' in failed[0] and module != 'krylov':
@@ -227,6 +227,7 @@ def main():
     ap.add_argument('--list', action='store_true')
     ap.add_argument('--sites', default='')
     ap.add_argument('--lines', default='', help='restrict to source lines a-b')
+    ap.add_argument('--rejudge-survivors', action='store_true', help='run the checks again on the mutants recorded as survived (tests are not repeated)')
     a = ap.parse_args()
     src = open(os.path.join(REPO, 'pytenet', a.module + '.py')).read()
     sites = enumerate_sites(src)
@@ -238,20 +239,29 @@ def main():
             print(s)
         print(len(sites), 'sites')
         return
-    if a.sites:
+    if a.rejudge_survivors:
+        pass
+    elif a.sites:
         pick = [int(x) for x in a.sites.split(',')]
     else:
         rng = random.Random(a.seed)
         pick = sorted(rng.sample([s[0] for s in sites], min(a.n, len(sites))))
     os.makedirs(a.out, exist_ok=True)
     outp = os.path.join(a.out, a.module + '.jsonl')
+    if a.rejudge_survivors:
+        last = {}
+        for l in open(outp):
+            if l.strip():
+                r = json.loads(l); last[r['site']] = r['verdict']
+        pick = sorted(i for i, v in last.items() if v == 'survived')
+        a.sites = ','.join(map(str, pick)) or '-'
     if not a.sites and os.path.exists(outp):
         # sites judged by an earlier run are not repeated
         done = {json.loads(l)['site'] for l in open(outp) if l.strip()}
         pick = [i for i in pick if i not in done]
     tally = {}
     with ThreadPoolExecutor(a.jobs) as ex, open(outp, 'a') as f:
-        for r in ex.map(lambda i: judge(a.module, i, a.tier), pick):
+        for r in ex.map(lambda i: judge(a.module, i, a.tier, skip_tests=a.rejudge_survivors), pick):
             f.write(json.dumps(r) + '\n'); f.flush()
             k = r['verdict'].split(':')[0]
             tally[k] = tally.get(k, 0) + 1
